@@ -225,6 +225,31 @@ theorem reregistration_sync_table (l : Link) (ty : Nat) (hty : ty = prog.anyList
   rcases l with ⟨a, n⟩
   rcases hty with rfl | rfl | rfl <;> cases a <;> cases n <;> cases remove <;> decide
 
+/-- The traits a wildcard / metadata item registers on an object, read off the translated branch of
+`register`: never events; with a metadata name the traits whose metadata is set (`+m`) resp. not set
+(`-m`); with a prefix only the traits whose name starts with it. -/
+theorem wild_selected_is_source (metaNamed metaDefined prefixNonEmpty : Bool) (ts : List TInfo) :
+    wild.selected metaNamed metaDefined prefixNonEmpty ts =
+      ts.filter (fun t => !t.isEvent && (!metaNamed || (if metaDefined then t.metaSet else !t.metaSet)) &&
+        (!prefixNonEmpty || t.hasPrefix)) := by
+  unfold Wild.selected
+  congr 1
+  funext t
+  cases metaNamed <;> cases metaDefined <;> cases prefixNonEmpty <;>
+    simp [wild, Filter.holds]
+
+theorem wild_flags : wild.anytraitFirst = true ∧ wild.hooksTraitAdded = true := ⟨rfl, rfl⟩
+
+/-- `register` classifies every trait kind as `type_map` says … -/
+theorem regKind_table :
+    regKind prog .constant = .simple ∧ regKind prog .list = .list ∧ regKind prog .dict = .dict ∧
+    regKind prog .set = .list := by decide
+
+/-- … and so does `_new_trait_added` for a trait added to a listened-to object later (it reads
+`handler.default_value_type` like `register`; before /repo a16357d it read `handler.default_value_`,
+which is no attribute, and every late trait went to `_register_simple`: finding F107, repaired). -/
+theorem lateKind_table (d : DVT) : lateKind prog wild d = regKind prog d := by cases d <;> rfl
+
 /-- The three listener types are distinct constants and `type_map` sends List / Dict / Set traits to
 `_register_list / _register_dict / _register_list` (alias) and everything else to `_register_simple`. -/
 theorem constants_table :
